@@ -346,7 +346,7 @@ Definition processExtendedGcodeEntry (s : fstate) (mode : xmode) (m : icmd) : fs
   | XExclude => s
   | XMerge =>
       let old := match assoc g (pending s) with Some (PArgs a) => a | _ => [] end in
-      let args := fold_left (fun acc w => dict_set (fst w) (snd w) acc) (cwords m) old in
+      let args := fold_left (fun acc w => if String.eqb (fst w) "" then acc else dict_set (fst w) (snd w) acc) (cwords m) old in
       upd_pending s (remove_key g (pending s) ++ [(g, PArgs args)])
   | XFirst =>
       match assoc g (pending s) with
